@@ -19,11 +19,11 @@ type HashBinCase struct {
 	// ProjDir names the directory holding the spokfile ("" = proj)
 	ProjDir string `json:"proj_dir,omitempty"`
 	// Invoke: how spok is pointed at the project (sandbox.Box.Invoke)
-	Invoke string   `json:"invoke,omitempty"`
+	Invoke string `json:"invoke,omitempty"`
 	// Outputs: "files" = standard output and error are regular files (sandbox.Box.FileOutputs)
-	Outputs string `json:"outputs,omitempty"`
-	Kinds  []string `json:"kinds"` // regular dir missing dangling symlink unreadable
-	Flags  []string `json:"flags"`
+	Outputs string   `json:"outputs,omitempty"`
+	Kinds   []string `json:"kinds"` // regular dir missing dangling symlink unreadable
+	Flags   []string `json:"flags"`
 	// Prime: every dependency first exists as a regular file and the task is run successfully (twice:
 	// the second run is a skip), only then do the dependencies take the kinds above. A recorded
 	// digest must not make spok forgiving about a dependency it can no longer read.
